@@ -621,9 +621,11 @@ func (b *BaseStore) Sync(ctx context.Context, heads []ipfslog.Entry) error {
 		return nil
 	}
 
+	verified := make([]ipfslog.Entry, 0, len(heads))
+
 	for _, h := range heads {
-		if h == nil {
-			b.Logger().Debug("warning: Given input entry was 'null'.")
+		if !isWellFormedHead(h) {
+			b.Logger().Debug("warning: Given input entry was 'null' or incomplete and was discarded.")
 			continue
 		}
 
@@ -659,12 +661,37 @@ func (b *BaseStore) Sync(ctx context.Context, heads []ipfslog.Entry) error {
 		}
 
 		span.AddEvent("store-sync-head-verified")
+		verified = append(verified, h)
+	}
+
+	if len(verified) == 0 {
+		return nil
 	}
 
 	verifhook.Point("store.sync_spawn", b.id)
-	go b.Replicator().Load(ctx, heads)
+	go b.Replicator().Load(ctx, verified)
 
 	return nil
+}
+
+// isWellFormedHead tells whether a head received from a peer carries everything
+// Sync, the access controller and the replicator dereference: heads decoded from
+// a message can be nil pointers wrapped in a non-nil interface value, or lack
+// their identity, its signatures, their clock or their hash.
+func isWellFormedHead(h ipfslog.Entry) bool {
+	if h == nil || !h.Defined() {
+		return false
+	}
+
+	if identity := h.GetIdentity(); identity == nil || identity.Signatures == nil {
+		return false
+	}
+
+	if clock := h.GetClock(); clock == nil || !clock.Defined() {
+		return false
+	}
+
+	return h.GetHash().Defined()
 }
 
 func (b *BaseStore) LoadMoreFrom(ctx context.Context, amount uint, entries []ipfslog.Entry) { //nolint:all
